@@ -141,6 +141,9 @@ func (c *ColStr) DecodeColumn(r *Reader, rows int) error {
 
 		p.Start = p.End
 		p.End += n
+		if p.End < p.Start {
+			return errors.Errorf("row %d: size %d overflows the column buffer", i, n)
+		}
 
 		if len(c.Buf) < p.End {
 			var an int
